@@ -478,7 +478,7 @@ impl Monitors {
                         }
                         t.lc = Lifecycle { open: true, first: Some(*h), started_ms: rec.t_ms, hist_clean, ..Default::default() };
                         if let Some(w) = t.pending_written_grid {
-                            t.lc.grid_age_at_start = self.grid_at_restart.saturating_sub(w);
+                            t.lc.grid_age_at_start = self.grid_s.saturating_sub(w);
                         }
                         if live || stored == "Pending" {
                             self.stats.earlier_attempt_when_ready += 1;
